@@ -14,7 +14,11 @@
 (*     images against `exp`.                                               *)
 (*                                                                         *)
 (* Abstract state                                                          *)
-(*   files : Name -> [blob, bit, vis]   vis = "all" (every namespace) or   *)
+(*   files : Name -> [blob, bit, baked, vis]                               *)
+(*           bit: a boot info table is maintained in bytes 8..63;          *)
+(*           baked: the content went through a reopen while patched, its   *)
+(*           original bytes 8..63 no longer exist anywhere;                *)
+(*           vis = "all" (every namespace) or                              *)
 (*           "sec" (ISO9660/Rock Ridge name removed by rm_hard_link, the   *)
 (*           Joliet/UDF names, if the configuration has any, remain)       *)
 (*   dirs  : set of (empty) directories - they only move extents           *)
@@ -26,7 +30,7 @@
 (* of syslinux' isohybrid: the EFI image of a hybrid is the first section  *)
 (* entry with platform 0xEF in catalog order, the Mac image the second.    *)
 (***************************************************************************)
-EXTENDS Naturals, Sequences, FiniteSets, TLC, Json
+EXTENDS Naturals, Sequences, FiniteSets, TLC, Json, IOUtils
 
 CONSTANTS Profile,    \* parameter family, see Par
           MaxLen,     \* calls after the canned prefix
@@ -117,8 +121,15 @@ FullGrid(em) ==
         e \in 1..4, o \in {0, 4, 64}, t \in (IF em = "mac" THEN {999, 0} ELSE {999, 23, 131, 0}),
         g \in Geoms, i \in {"none", "small", "big"}}
 
+\* Profile "script": the model as an oracle for given call sequences (replay files, shrinking):
+\* env BOOT_SCRIPTS names a JSON file {"scripts": [[action, ...], ...]}
+Scripts == IF "BOOT_SCRIPTS" \in DOMAIN IOEnv THEN JsonDeserialize(IOEnv.BOOT_SCRIPTS).scripts ELSE <<>>
+
 Par ==
-  CASE Profile = "c11q" ->     \* exhaustive: every transition of the bounded graph
+  CASE Profile = "script" ->
+        [names |-> {}, blobs |-> {}, dirs |-> {}, boot |-> {}, hyb |-> {}, scopes |-> {},
+         prefixes |-> {Scripts[n] : n \in 1..Len(Scripts)}, maxent |-> 32, maxfiles |-> 99]
+    [] Profile = "c11q" ->     \* exhaustive: every transition of the bounded graph
         [names |-> {"A", "I"}, blobs |-> {"s32", "h2049"}, dirs |-> {"D"},
          boot |-> {Plain, Iso4Bit, BS("noemul", 0, FALSE, TRUE, TRUE, 239, 1984), BS("bogus", 0, TRUE, FALSE, FALSE, 0, 0),
                    BS("noemul", 4, TRUE, FALSE, FALSE, 7, 0)},
@@ -166,7 +177,7 @@ Par ==
          boot |-> {Plain},
          hyb |-> {HS(1, 0, 999, 32, 64, "none", "none", FALSE), HS(2, 4, 131, 63, 255, "small", "yes", FALSE),
                   HS(1, 0, 999, 32, 64, "big", "none", TRUE)},
-         scopes |-> {"all"}, prefixes |-> {HybPrefix("ME", FALSE, FALSE), HybPrefix("ME", TRUE, TRUE), HybPrefix("EM", TRUE, TRUE)},
+         scopes |-> {}, prefixes |-> {HybPrefix("ME", FALSE, FALSE), HybPrefix("ME", TRUE, TRUE), HybPrefix("EM", TRUE, TRUE)},
          maxent |-> 4, maxfiles |-> 5]
     [] Profile = "c12s" ->     \* simulation: longer mixed histories
         [names |-> {"A", "Z", "K"}, blobs |-> {"x5000", "s32", "h2048"}, dirs |-> {"D", "Y"},
@@ -174,8 +185,8 @@ Par ==
          hyb |-> {HS(1, 0, 999, 32, 64, "none", "none", FALSE), HS(2, 4, 131, 63, 255, "small", "yes", FALSE),
                   HS(1, 0, 999, 32, 64, "big", "none", TRUE), HS(4, 64, 0, 1, 1, "zero", "yes", TRUE),
                   HS(3, 0, 23, 1, 64, "none", "no", FALSE)},
-         scopes |-> {"all", "iso"}, prefixes |-> {HybPrefix("ME", FALSE, FALSE), HybPrefix("ME", TRUE, FALSE),
-                                                  HybPrefix("ME", TRUE, TRUE), HybPrefix("EM", TRUE, TRUE), <<>>},
+         scopes |-> {}, prefixes |-> {HybPrefix("ME", FALSE, FALSE), HybPrefix("ME", TRUE, FALSE),
+                                     HybPrefix("ME", TRUE, TRUE), HybPrefix("EM", TRUE, TRUE), <<>>},
          maxent |-> 5, maxfiles |-> 6]
 
 \* ---- state ------------------------------------------------------------------
@@ -215,7 +226,7 @@ EltTaint(s, spec, why) == why # "missing" /\ (spec.bit \/ (~s.elt.on /\ why \in 
 NewEntry(s, f, spec) ==
     LET b == s.files[f].blob
         sc == SectorCount(b, spec) IN
-    [name |-> f, blob |-> b, vis |-> "all", cbit |-> FALSE,
+    [name |-> f, blob |-> b, vis |-> "all", cbit |-> FALSE, cbaked |-> FALSE,
      media |-> MediaCode(spec, sc),
      count |-> IF spec.media = "noemul" THEN sc ELSE 1,
      ind |-> IF spec.bootable THEN 136 ELSE 0,
@@ -243,7 +254,7 @@ RmEltorito(s) ==
 
 AddFile(s, n, b) ==
     IF Has(s, n) \/ n = CatName THEN No(s, "exists", FALSE)
-    ELSE Ok([s EXCEPT !.files = (n :> [blob |-> b, bit |-> FALSE, vis |-> "all"]) @@ s.files])
+    ELSE Ok([s EXCEPT !.files = (n :> [blob |-> b, bit |-> FALSE, baked |-> FALSE, vis |-> "all"]) @@ s.files])
 
 Drop(files, n) == [m \in DOMAIN files \ {n} |-> files[m]]
 
@@ -259,7 +270,8 @@ RmHardLink(s, n, scope) ==
     ELSE LET nv == IF scope = "all" THEN "none" ELSE "sec"
              ents == [k \in 1..Len(s.elt.entries) |->
                         IF s.elt.entries[k].name = n /\ s.elt.entries[k].vis = "all"
-                        THEN [s.elt.entries[k] EXCEPT !.vis = nv, !.cbit = s.files[n].bit]
+                        THEN [s.elt.entries[k] EXCEPT !.vis = nv, !.cbit = s.files[n].bit,
+                                                      !.cbaked = s.files[n].baked]
                         ELSE s.elt.entries[k]] IN
          Ok([s EXCEPT !.files = IF scope = "all" THEN Drop(s.files, n) ELSE [s.files EXCEPT ![n].vis = "sec"],
                       !.elt.entries = ents])
@@ -299,6 +311,13 @@ AddIsohybrid(s, spec) ==
 
 RmIsohybrid(s) == Ok([s EXCEPT !.hyb = NoHyb])
 
+\* write + open: nothing changes but the patched bytes become the only bytes there are
+Reopened(s) ==
+    [s EXCEPT !.gen = @ + 1,
+              !.files = [n \in DOMAIN s.files |-> [s.files[n] EXCEPT !.baked = @ \/ s.files[n].bit]],
+              !.elt.entries = [k \in 1..Len(s.elt.entries) |->
+                                 [s.elt.entries[k] EXCEPT !.cbaked = @ \/ s.elt.entries[k].cbit]]]
+
 Step(s, a) ==
     CASE a.a = "AddFile"      -> AddFile(s, a.n, a.blob)
       [] a.a = "RmFile"       -> RmFile(s, a.n)
@@ -310,7 +329,7 @@ Step(s, a) ==
       [] a.a = "AddIsohybrid" -> AddIsohybrid(s, a.spec)
       [] a.a = "RmIsohybrid"  -> RmIsohybrid(s)
       [] a.a = "ForceConsistency" -> Ok(s)
-      [] a.a = "Reopen"       -> Ok([s EXCEPT !.gen = @ + 1])
+      [] a.a = "Reopen"       -> Ok(Reopened(s))
 
 RECURSIVE Run(_, _)
 Run(s, p) == IF p = <<>> THEN s ELSE Run(Step(s, Head(p)).acc, Tail(p))
@@ -334,8 +353,9 @@ Cands(s) ==
 Size(s) == /\ Cardinality(DOMAIN s.files) <= Par.maxfiles
            /\ Len(s.elt.entries) <= Par.maxent
 
-Init == /\ \E p \in Par.prefixes : /\ st = Run(Fresh, p)
-                                   /\ h = RunLog(Fresh, p)
+Init == /\ IF Profile = "script" THEN st = Fresh /\ h = <<>>
+           ELSE \E p \in Par.prefixes : /\ st = Run(Fresh, p)
+                                        /\ h = RunLog(Fresh, p)
         /\ nref = 0
         /\ nstep = 0
 
@@ -364,26 +384,38 @@ Reject == /\ st.phase = "live" /\ After < MaxLen /\ nref < MaxRefuse
           /\ nstep' = nstep + 1
 
 Reopen == /\ st.phase = "live" /\ After < MaxLen /\ st.gen < MaxGen
-          /\ st' = [st EXCEPT !.gen = @ + 1]
+          /\ st' = Reopened(st)
           /\ h' = Append(h, Log([a |-> "Reopen"], Ok(st)))
           /\ nstep' = nstep + 1
           /\ UNCHANGED nref
 
-Next == Accept \/ Reject \/ Reopen
+\* profile "script": follow the given call sequences one call at a time
+ScriptStep == /\ Profile = "script"
+              /\ \E p \in Par.prefixes :
+                   /\ Len(h) < Len(p)
+                   /\ \A j \in 1..Len(h) : h[j].act = p[j]
+                   /\ \E r \in {Step(st, p[Len(h) + 1])} :
+                        /\ st' = r.acc
+                        /\ h' = Append(h, Log(p[Len(h) + 1], r))
+              /\ UNCHANGED <<nref, nstep>>
+
+Next == Accept \/ Reject \/ Reopen \/ ScriptStep
 vars == <<st, h, nref, nstep>>
 Spec == Init /\ [][Next]_vars
 
 \* ---- what the image must show ---------------------------------------------
 Patched(s, e) == IF e.vis = "all" \/ e.vis = "sec" THEN (Has(s, e.name) /\ s.files[e.name].bit) ELSE e.cbit
+Baked(s, e) == IF e.vis = "all" \/ e.vis = "sec" THEN (Has(s, e.name) /\ s.files[e.name].baked) ELSE e.cbaked
 Expect(s) ==
     [boot |-> s.elt.on, platform |-> s.elt.platform, cat |-> s.elt.cat,
      entries |-> [k \in 1..Len(s.elt.entries) |->
                     LET e == s.elt.entries[k] IN
                     [name |-> e.name, blob |-> e.blob, len |-> BlobInfo[e.blob].len, vis |-> e.vis,
-                     patched |-> Patched(s, e), media |-> e.media, count |-> e.count, ind |-> e.ind,
+                     patched |-> Patched(s, e), loose |-> Patched(s, e) \/ Baked(s, e), media |-> e.media, count |-> e.count, ind |-> e.ind,
                      plat |-> e.plat, systype |-> e.systype, seg |-> e.seg]],
      files |-> {[name |-> n, blob |-> s.files[n].blob, len |-> BlobInfo[s.files[n].blob].len,
-                 patched |-> s.files[n].bit, vis |-> s.files[n].vis] : n \in DOMAIN s.files},
+                 patched |-> s.files[n].bit, loose |-> s.files[n].bit \/ s.files[n].baked,
+                 vis |-> s.files[n].vis] : n \in DOMAIN s.files},
      dirs |-> s.dirs,
      hyb |-> s.hyb @@ [efik |-> IF s.elt.on THEN EfiK(s) ELSE 0, mack |-> IF s.elt.on THEN MacK(s) ELSE 0],
      dead |-> s.phase = "dead", gen |-> s.gen]
@@ -407,13 +439,19 @@ InvRmEltoritoInverse ==
           r.out = "ok" => RmEltorito(r.acc).acc = st /\ RmEltorito(r.acc).out = "ok"
 Holds(f, name) == Assert(f, name)
 ActionProps ==
-    /\ Holds(nref' = nref + 1 => [st' EXCEPT !.phase = "live"] = st, "RejectChangesNothing")
+    /\ Holds(Profile # "script" /\ nref' = nref + 1 => [st' EXCEPT !.phase = "live"] = st, "RejectChangesNothing")
     /\ Holds(st'.gen >= st.gen, "GenMonotone")
-    /\ Holds(h'[Len(h')].act.a = "Reopen" => [st' EXCEPT !.gen = st.gen] = st, "ReopenPreservesState")
+    /\ Holds(h'[Len(h')].act.a = "Reopen" => /\ st'.elt.on = st.elt.on /\ st'.hyb = st.hyb /\ st'.dirs = st.dirs
+                                              /\ DOMAIN st'.files = DOMAIN st.files
+                                              /\ \A n \in DOMAIN st.files : st'.files[n].blob = st.files[n].blob
+                                                                            /\ st'.files[n].vis = st.files[n].vis
+                                                                            /\ st'.files[n].bit = st.files[n].bit,
+             "ReopenPreservesState")
 
 \* ---- behaviour output --------------------------------------------------------
-View == <<st, nref, nstep>>
+View == IF Profile = "script" THEN <<h>> ELSE <<st, nref, nstep>>
 Out == PrintT(<<"HIST", ToJson([h |-> h', exp |-> Expect(st')])>>)
 DumpEdge == Dump = "edges" => Out
+DumpInit == Dump = "init" => PrintT(<<"HIST", ToJson([h |-> h, exp |-> Expect(st)])>>)
 DumpFinal == Dump = "final" => ((After + 1 = MaxLen \/ st'.phase = "dead") => Out)
 =============================================================================
